@@ -10,12 +10,22 @@ use serde::{Deserialize, Serialize};
 
 use crate::{model::ValueTag, FromPrimitive as _};
 
+fn invalid_length() -> io::Error {
+    io::Error::new(io::ErrorKind::InvalidData, "Invalid IPP value length")
+}
+
 #[inline]
-fn get_len_string(data: &mut Bytes) -> String {
+fn get_len_string(data: &mut Bytes) -> io::Result<String> {
+    if data.remaining() < 2 {
+        return Err(invalid_length());
+    }
     let len = data.get_u16() as usize;
+    if data.remaining() < len {
+        return Err(invalid_length());
+    }
     let s = String::from_utf8_lossy(&data[0..len]).into_owned();
     data.advance(len);
-    s
+    Ok(s)
 }
 
 /// IPP attribute values as defined in [RFC 8010](https://tools.ietf.org/html/rfc8010)
@@ -112,31 +122,31 @@ impl IppValue {
         };
 
         let value = match ipp_tag {
-            ValueTag::Integer => IppValue::Integer(data.get_i32()),
-            ValueTag::Enum => IppValue::Enum(data.get_i32()),
+            ValueTag::Integer if data.len() == 4 => IppValue::Integer(data.get_i32()),
+            ValueTag::Enum if data.len() == 4 => IppValue::Enum(data.get_i32()),
             ValueTag::OctetStringUnspecified => IppValue::OctetString(String::from_utf8_lossy(&data).into_owned()),
             ValueTag::TextWithoutLanguage => IppValue::TextWithoutLanguage(String::from_utf8_lossy(&data).into_owned()),
             ValueTag::NameWithoutLanguage => IppValue::NameWithoutLanguage(String::from_utf8_lossy(&data).into_owned()),
             ValueTag::TextWithLanguage => IppValue::TextWithLanguage {
-                language: get_len_string(&mut data),
-                text: get_len_string(&mut data),
+                language: get_len_string(&mut data)?,
+                text: get_len_string(&mut data)?,
             },
             ValueTag::NameWithLanguage => IppValue::NameWithLanguage {
-                language: get_len_string(&mut data),
-                name: get_len_string(&mut data),
+                language: get_len_string(&mut data)?,
+                name: get_len_string(&mut data)?,
             },
             ValueTag::Charset => IppValue::Charset(String::from_utf8_lossy(&data).into_owned()),
             ValueTag::NaturalLanguage => IppValue::NaturalLanguage(String::from_utf8_lossy(&data).into_owned()),
             ValueTag::Uri => IppValue::Uri(String::from_utf8_lossy(&data).into_owned()),
             ValueTag::UriScheme => IppValue::UriScheme(String::from_utf8_lossy(&data).into_owned()),
-            ValueTag::RangeOfInteger => IppValue::RangeOfInteger {
+            ValueTag::RangeOfInteger if data.len() == 8 => IppValue::RangeOfInteger {
                 min: data.get_i32(),
                 max: data.get_i32(),
             },
-            ValueTag::Boolean => IppValue::Boolean(data.get_u8() != 0),
+            ValueTag::Boolean if data.len() == 1 => IppValue::Boolean(data.get_u8() != 0),
             ValueTag::Keyword => IppValue::Keyword(String::from_utf8_lossy(&data).into_owned()),
             ValueTag::MimeMediaType => IppValue::MimeMediaType(String::from_utf8_lossy(&data).into_owned()),
-            ValueTag::DateTime => IppValue::DateTime {
+            ValueTag::DateTime if data.len() == 11 => IppValue::DateTime {
                 year: data.get_u16(),
                 month: data.get_u8(),
                 day: data.get_u8(),
@@ -149,12 +159,19 @@ impl IppValue {
                 utc_mins: data.get_u8(),
             },
             ValueTag::MemberAttrName => IppValue::MemberAttrName(String::from_utf8_lossy(&data).into_owned()),
-            ValueTag::Resolution => IppValue::Resolution {
+            ValueTag::Resolution if data.len() == 9 => IppValue::Resolution {
                 cross_feed: data.get_i32(),
                 feed: data.get_i32(),
                 units: data.get_i8(),
             },
             ValueTag::NoValue => IppValue::NoValue,
+            // fixed-size syntaxes (RFC 8010 section 3.9) with a wrong value length
+            ValueTag::Integer
+            | ValueTag::Enum
+            | ValueTag::RangeOfInteger
+            | ValueTag::Boolean
+            | ValueTag::DateTime
+            | ValueTag::Resolution => return Err(invalid_length()),
             _ => IppValue::Other { tag: value_tag, data },
         };
         Ok(value)
